@@ -296,6 +296,12 @@ class Sym:
 
     __hash__ = None
 
+    def __bool__(s):
+        # truthiness as for a Python/NumPy number (`if x:`, ndarray.any()/all() on object arrays): x != 0, a branch when symbolic
+        if s.c is not None:
+            return s.c != 0
+        return bool(s != 0)
+
     def __repr__(s):
         if s.c is not None:
             return 'Sym(%s)' % s.c
